@@ -139,6 +139,9 @@ func scriptStmts(c *Ctx) []string {
 	for i := 0; i < n; i++ {
 		v := vars[c.R.Intn(len(vars))]
 		k := c.R.Intn(9)
+		if c.R.Intn(8) == 0 {
+			k = 10 + c.R.Intn(3) // statements that remove or rebind a name: what they do to a LATER statement must not depend on the chunking
+		}
 		if macroHeavy && c.R.Intn(3) == 0 {
 			k = 6 + 3*c.R.Intn(2) // a macro use: printed, or stored in a variable / used inside a function defined now and called later
 		}
@@ -153,6 +156,24 @@ func scriptStmts(c *Ctx) []string {
 			default:
 				out = append(out, fmt.Sprintf("for i = 2 {\n\tprintln(m(i, a))\n}"))
 			}
+		case 10:
+			// del of a variable, a function or a macro name, followed by a new binding of that name
+			name := c.R.Pick([]string{"m", "f", "k", "total", "m"})
+			out = append(out, "del("+name+")", c.R.Pick([]string{name + " = 7", name + " = func(x, y) { x * 10 + y }", "println(\"deleted\")"}))
+			if name == "f" {
+				haveF = false
+			}
+		case 11:
+			// a macro name bound to a function (and the other way round): calls before and after, in the same and in later chunks
+			if haveM {
+				out = append(out, "m = func(x, y) { x * 10 + y }", fmt.Sprintf("println(\"call:\", m(a, %d))", c.R.Intn(5)))
+			} else {
+				out = append(out, "f = macro(x) { quote(unquote(x) + 1) }", "println(f(3))")
+				haveF = true
+			}
+		case 12:
+			out = append(out, fmt.Sprintf("%s := %d", v, c.R.Intn(10)), fmt.Sprintf("println(%s)", v))
+			defined[v] = true
 		case 0:
 			out = append(out, fmt.Sprintf("%s = a + %d", v, c.R.Intn(10)))
 			defined[v] = true
@@ -192,7 +213,7 @@ func scriptStmts(c *Ctx) []string {
 func macroRedefinedAfterUse(stm []string) bool {
 	firstUse := map[string]int{}
 	for i, st := range stm {
-		for _, name := range []string{"m", "double", "sq", "check"} {
+		for _, name := range []string{"m", "f", "double", "sq", "check"} {
 			isDef := strings.HasPrefix(st, name+" = macro(")
 			if isDef {
 				if u, ok := firstUse[name]; ok && u < i {
@@ -204,6 +225,28 @@ func macroRedefinedAfterUse(stm []string) bool {
 				if _, ok := firstUse[name]; !ok {
 					firstUse[name] = i
 				}
+			}
+		}
+	}
+	return false
+}
+
+// macroUsedBeforeDefined: a name is called in a statement that precedes its first definition as a macro. In one go that call is a
+// macro use (definitions are collected first), so the script is outside the property's hypothesis "macros defined before use".
+func macroUsedBeforeDefined(stm []string) bool {
+	used := map[string]bool{}
+	defd := map[string]bool{}
+	for _, st := range stm {
+		for _, name := range []string{"m", "f", "double", "sq", "check"} {
+			if strings.HasPrefix(st, name+" = macro(") {
+				if used[name] && !defd[name] {
+					return true
+				}
+				defd[name] = true
+				continue
+			}
+			if strings.Contains(st, name+"(") {
+				used[name] = true
 			}
 		}
 	}
@@ -251,6 +294,8 @@ func sessions(c *Ctx, s *st) {
 		{"sq = macro(x){quote(unquote(x)*unquote(x))}", "func f(n) {\n\tsq(n+1)\n}", "println(f(2))", "println(sq(3), f(4))"},
 		{"check = macro(c){quote(if !(unquote(c)) {println(\"failed\")})}", "check = macro(c){quote(if unquote(c) {println(\"ok\")} else {println(\"failed\")})}", "n = 3", "check(n > 2)", "m = n * 2", "check(m == 6)"},
 	}
+	// a macro name deleted and bound to a function: expansion happens once per input, before evaluation
+	fixed = append(fixed, []string{"m = macro(x){quote(unquote(x)+1)}", "println(\"macro:\", m(1))", "del(m)", "m = func(x){x*10}", "println(\"function:\", m(1))"})
 	// what one input leaves in the function-result cache is there for the next input: a script whose last statement is only
 	// within the depth limit because the earlier loop filled the cache (12000 remembered results, depth limit 4000)
 	fixed = append(fixed, []string{"sum = func(n) { if n <= 0 { return 0 } n + self(n - 1) }", "for i = 12001 { sum(i) }", "println(\"sum:\", sum(12000))", "done = true"})
@@ -259,13 +304,17 @@ func sessions(c *Ctx, s *st) {
 		sessionMaxDepth = 0
 		if k < len(fixed) {
 			stm = fixed[k]
-			if k == len(fixed)-1 {
+			if len(stm) > 0 && strings.HasPrefix(stm[0], "sum = func") {
 				sessionMaxDepth = 4000
 			}
 		} else {
 			stm = scriptStmts(c)
 		}
 		whole := strings.Join(stm, "\n")
+		if macroUsedBeforeDefined(stm) {
+			c.Count("script-macro-used-before-defined-skipped")
+			continue
+		}
 		o0, g0, e0 := runSession([]string{whole})
 		if len(e0) > 0 || evalError(whole) { // the property is about error-free scripts (a run-time error ends an input early)
 			c.Count("script-with-errors-skipped")
